@@ -73,6 +73,9 @@ def dispatch (prop : String) (kv : List (String × String)) : IO Res := do
   | "C20" => match get kv "kind" with
     | some "dump" => LiveProps.runLive20 kv
     | _ => return dispatchPure prop kv
+  | "C15" => match get kv "kind" with
+    | some "dump" => LiveProps.runLive15 kv
+    | _ => return dispatchPure prop kv
   | "C12" => match get kv "kind" with
     | some "dump" => LiveProps.runLive12 kv
     | _ => return dispatchPure prop kv
